@@ -220,6 +220,7 @@ class Check(object):
             "classes": dict(sorted(tot.classes.items())),
             "discards": dict(tot.discards),
             "excluded_known": dict(tot.excluded),
+            "floors": {cls: {"minimum": minimum, "count": tot.classes.get(cls, 0)} for cls, minimum in self.floors},
             "exhaustive_subspaces": self.exhaustive,
             "shards": NPROC,
         }
